@@ -289,6 +289,20 @@ impl LangGen {
     }
 
     fn let_form(&mut self, ty: Ty, cx: &[Var], depth: usize) -> String {
+        if ty == Ty::Int && self.rng.chance(1, 7) {
+            // let* binds one name after the other: an init sees the bindings to its left (of this let* or of an
+            // enclosing form), never the ones at or to its right; a closure made by an init keeps the binding it saw
+            self.tag("let*-rebinding");
+            let x = self.fresh("x");
+            let y = self.fresh("y");
+            let f = self.fresh("f");
+            let a = self.expr(Ty::Int, cx, 0);
+            let b = self.expr(Ty::Int, cx, 0);
+            return format!(
+                "(let (({x} {a})) (let* (({y} {x}) ({x} (+ {y} {b})) ({f} (lambda () {x})) ({x} (* {x} 2))) (+ {x} (* 3 {y}) (* 5 ({f})))))",
+                x = x, y = y, f = f, a = a, b = b
+            );
+        }
         let which = self.rng.below(5);
         let tys = [Ty::Int, Ty::Int, Ty::List, Ty::Bool, Ty::Sym, Ty::Fun, Ty::Vec, Ty::Str];
         let n = 1 + self.rng.below(2);
